@@ -6,6 +6,7 @@
 From Coq Require Import String.
 From Coq Require Import List NArith Bool.
 From Sia Require Import Codec.Canonical Codec.PolicyWire Codec.PolicyBounds Prim.Tok Codec.Schema Codec.Shape Codec.Irregular Gen.Schemas Codec.Oblig.
+From Sia Require Prim.Result Ledger.Types Ledger.Mid Ledger.Validate Ledger.Apply Ledger.VApply.
 Import ListNotations.
 
 Theorem C10_slice_alloc_bound : forall recog s b l r,
@@ -34,3 +35,14 @@ Theorem C10_policy_size_bounded : forall b p r, byte_okl b -> dec_pw max_policy_
   (pw_nodes p + List.length r <= List.length b)%nat.
 Proof. exact decoded_policy_size. Qed.
 Print Assumptions C10_policy_size_bounded.
+
+(* ---- validation half: the transaction phase of ApplyBlock cannot fail or panic on an accepted block ---- *)
+(* every application ApplyBlock performs on the block's v1 and v2 transactions has already been performed, with the same
+   MidState, by ValidateBlock; having accepted, it has seen each of them return Ok. (The remaining phases of ApplyBlock --
+   miner payouts, Foundation subsidy, expiring v1 contracts -- are not covered by this statement.) *)
+Theorem C10_accepted_transactions_apply : forall H net vt pt se sd s b,
+  Ledger.Apply.validate_block H net vt pt se sd s b = Prim.Result.Ok tt ->
+  exists m1 m2, Ledger.Apply.apply_txns1 net s (Ledger.Mid.new_mid s) (Ledger.Types.b_txns b) (Ledger.Types.b_supp b) = Prim.Result.Ok m1 /\
+                Ledger.Apply.fold_r (Ledger.Apply.apply_txn2 net s) (Ledger.Types.b_v2txns b) m1 = Prim.Result.Ok m2.
+Proof. intros H net vt pt se sd s b V. destruct (Ledger.VApply.accepted_transactions_apply H net vt pt se sd s b V) as (m1 & m2 & _ & A1 & _ & A2). exists m1, m2. split; assumption. Qed.
+Print Assumptions C10_accepted_transactions_apply.
